@@ -186,6 +186,10 @@ class TaskScheduler(object):
 
     def _continue_with_task(self, task):
         task._resume_contexts()
+        if task.is_computed():
+            # A context failed to resume and its error became the task's result;
+            # there is nothing left to continue.
+            return 0
         old_task = self.active_task
         self.active_task = task
 
